@@ -12,6 +12,7 @@ CONSTANTS
   CfiLayouts = {"proc_all", "proc_each", "proc_rs"}
   Isa = "x64"
   WithScopes = FALSE
+  Fmts = {"elf"}
   WholeOnly = FALSE
   Leads = {0}
   DropFnTables = {FALSE}
